@@ -61,6 +61,12 @@ class Report:
         self._viol.append({"signature": signature, "detail": detail, "vector": vector})
 
     def finish(self) -> int:
+        # --replay <file>: engines without a dedicated single-vector replay re-run the quick exploration;
+        # only the replayed signature is then reported (same verdict as re-running exactly that vector
+        # whenever the vector is part of the deterministic exploration, which holds for all B1 engines)
+        only = os.environ.get("VERIF_REPLAY_SIGNATURE")
+        if only:
+            self._viol = [v for v in self._viol if v["signature"] == only]
         known = load_known()
         listed = {f["signature"]: f for f in known.get("findings", []) if f.get("property") == self.pid}
         seen_known: dict[str, dict] = {}
